@@ -127,7 +127,10 @@ pub const NUMERIC_EDGE: [&str; 12] = [
     "1000000",
 ];
 
-pub const NUMERIC_ODD: [&[u8]; 12] = [
+pub const NUMERIC_ODD: [&[u8]; 15] = [
+    b"000000000000000000041",
+    b"018446744073709551615",
+    b"00000000000000000000000000000000",
     b"007",
     b"+5",
     b" 5",
